@@ -420,6 +420,12 @@ class Interp:
         return V(TStr, self.ctx.fresh_const(sym.StrSort, "fstr"))
 
     def e_ListComp(self, node, env):
+        # filters `[x for x in L if P(x)]` are encoded exactly (comp.py); unconditional maps are over-approximated
+        if len(node.generators) == 1 and node.generators[0].ifs:
+            return self._listcomp_filter(node, env)
+        return self._listcomp_map(node, env)
+
+    def _listcomp_map(self, node, env):
         """[elt for x in <range(...) | list>]  (one generator, no condition), SOUND OVER-APPROXIMATION:
         the element expression is executed once for an ARBITRARY position of the iterable (so every exception an
         element can raise is explored, on a path where such an element exists); the result is a list of the right
